@@ -62,12 +62,14 @@ impl Report {
     }
     /// one executed case; `nontrivial` by the property's stated rule; `key` = hash of the canonical case
     pub fn eval(&mut self, nontrivial: bool, key: u64) {
+        crate::watchdog::tick();
         self.evaluations += 1;
         if nontrivial {
             self.distinct.insert(key);
         }
     }
     pub fn evals(&mut self, n: u64) {
+        crate::watchdog::tick();
         self.evaluations += n;
     }
     pub fn distinct_add(&mut self, key: u64) {
